@@ -453,6 +453,11 @@ def build_fixed(g):
     for k in [u8, u64, by["[u8; 4]"], tup([u8, u16]), vec(u8)]:
         for v in [u8, by["U256"], vec(u16), by["Bytes"], option(u8), bls[4]]:
             A(bmap(k, v))
+    # entries whose key or value is itself a variable-size tuple or a collection (an entry is a tuple: what a
+    # variable-size member reports as its fixed part is read by the entry's encoder and by nobody else)
+    vt = tup([u8, vec(u8)])
+    A(bmap(u16, vt)); A(bmap(vt, u16)); A(bmap(u8, tup([vec(u8), vec(u16)]))); A(bset(vt))
+    A(bmap(u8, bmap(u8, u8))); A(bmap(u8, bset(u16))); A(bmap(u8, option(vec(u8))))
     # nested lists / options
     A(vec(vec(u8))); A(vec(vec(u16))); A(vec(vec(vec(u16)))); A(vec(option(u16))); A(option(vec(u16)))
     A(option(option(u8))); A(vec(by["Bytes"])); A(vec(tup([u8, vec(u8)]))); A(vec(tup([u16, u32])))
